@@ -1443,4 +1443,144 @@ theorem readExactLoop_strip : ∀ (sc : List Outcome) (f1 f2 : Nat) (s : Bytes) 
             · simp [hlt, hp, Rd.strip, stripIntr]
           · simp [hlt, Rd.strip, stripIntr]
 
+
+theorem roomFor_idem (b : VBuf) : roomFor (roomFor b) = roomFor b := by
+  by_cases h : b.data.length = b.cap
+  · have h1 : roomFor b = { b with cap := growAmortized b.data.length b.cap 32 } := by
+      unfold roomFor VBuf.reserve
+      rw [if_pos h, if_neg (by omega)]
+    rw [h1]
+    unfold roomFor
+    rw [if_neg]
+    simp only [growAmortized]
+    omega
+  · have h1 : roomFor b = b := by
+      unfold roomFor
+      rw [if_neg h]
+    rw [h1, h1]
+
+/-- entering the loop with the buffer already grown makes no difference -/
+theorem readToEndLoop_roomFor (fuel : Nat) (r : Rd) (b : VBuf) (start total : Nat) :
+    readToEndLoop (fuel + 1) r (roomFor b) start total = readToEndLoop (fuel + 1) r b start total := by
+  rw [readToEndLoop_succ, readToEndLoop_succ, roomFor_idem]
+
+theorem readToEndLoop_strip : ∀ (sc : List Outcome) (f1 f2 : Nat) (s : Bytes) (b : VBuf) (start total : Nat),
+    s.length + sc.length < f1 → s.length + (stripIntr sc).length < f2 →
+    readToEndLoop f2 (.script s (stripIntr sc)) b start total =
+      ((readToEndLoop f1 (.script s sc) b start total).1,
+        (readToEndLoop f1 (.script s sc) b start total).2.1.strip,
+        (readToEndLoop f1 (.script s sc) b start total).2.2) := by
+  intro sc
+  induction sc with
+  | nil =>
+    intro f1 f2 s b start total h1 h2
+    cases f1 with
+    | zero => omega
+    | succ f1 =>
+      cases f2 with
+      | zero => omega
+      | succ f2 =>
+        simp only [stripIntr, readToEndLoop_succ, Rd.read, scriptRead]
+        split <;> simp [Rd.strip, stripIntr]
+  | cons o rest ih =>
+    intro f1 f2 s b start total h1 h2
+    cases f1 with
+    | zero => omega
+    | succ f1 =>
+      cases f2 with
+      | zero => omega
+      | succ f2 =>
+        cases o with
+        | intr =>
+          simp only [stripIntr]
+          rw [readToEndLoop_succ (fuel := f1)]
+          by_cases hp : (roomFor b).data.length < start + total
+          · simp only [hp, if_true, Rd.strip, stripIntr]
+            rw [readToEndLoop_succ]
+            simp [hp]
+          · simp only [hp, if_false, Rd.read, scriptRead]
+            -- the stripped run has not taken its step yet: it starts from `b`, the original
+            -- continues from `roomFor b`; `roomFor` is idempotent
+            rw [← readToEndLoop_roomFor]
+            exact ih f1 (f2 + 1) s (roomFor b) start total (by simp at h1; omega)
+              (by simp [stripIntr] at h2; omega)
+        | ok n =>
+          simp only [stripIntr, readToEndLoop_succ, Rd.read, scriptRead]
+          by_cases hp : (roomFor b).data.length < start + total
+          · simp [hp, Rd.strip, stripIntr]
+          · simp only [hp, if_false]
+            by_cases hz : (s.take (min n ((roomFor b).cap - (start + total)))).length = 0
+            · simp [hz, Rd.strip, stripIntr]
+            · simp only [hz, if_false]
+              have hl : (s.drop (min n ((roomFor b).cap - (start + total)))).length ≤ s.length := by
+                rw [List.length_drop]; omega
+              exact ih f1 f2 _ _ start _ (by simp at h1; omega) (by simp [stripIntr] at h2; omega)
+        | err k =>
+          simp only [stripIntr, readToEndLoop_succ, Rd.read, scriptRead]
+          by_cases hp : (roomFor b).data.length < start + total <;> simp [hp, Rd.strip, stripIntr]
+        | eof =>
+          simp only [stripIntr, readToEndLoop_succ, Rd.read, scriptRead]
+          by_cases hp : (roomFor b).data.length < start + total <;> simp [hp, Rd.strip, stripIntr]
+
+
+/-- forget the `Interrupted` entries left in a scripted writer -/
+def Wr.strip : Wr → Wr
+  | .base (.script got sc f s) => .base (.script got (stripIntr sc) f s)
+  | w => w
+
+theorem writeAllLoop_strip : ∀ (sc : List Outcome) (f1 f2 : Nat) (got : Bytes) (fl sh : Nat) (data : Bytes)
+    (needle : Nat), (data.length - needle) + sc.length < f1 →
+    (data.length - needle) + (stripIntr sc).length < f2 →
+    writeAllLoop f2 (.base (.script got (stripIntr sc) fl sh)) data needle =
+      ((writeAllLoop f1 (.base (.script got sc fl sh)) data needle).1,
+        (writeAllLoop f1 (.base (.script got sc fl sh)) data needle).2.strip) := by
+  intro sc
+  induction sc with
+  | nil =>
+    intro f1 f2 got fl sh data needle h1 h2
+    cases f1 with
+    | zero => omega
+    | succ f1 =>
+      cases f2 with
+      | zero => omega
+      | succ f2 =>
+        simp only [stripIntr, writeAllLoop_succ, Wr.write, BaseWr.write, scriptWrite]
+        split <;> simp [Wr.strip, stripIntr]
+  | cons o rest ih =>
+    intro f1 f2 got fl sh data needle h1 h2
+    cases f1 with
+    | zero => omega
+    | succ f1 =>
+      cases f2 with
+      | zero => omega
+      | succ f2 =>
+        cases o with
+        | intr =>
+          simp only [stripIntr]
+          rw [writeAllLoop_succ (fuel := f1)]
+          by_cases hlt : needle < data.length
+          · simp only [hlt, if_true, Wr.write, BaseWr.write, scriptWrite]
+            exact ih f1 (f2 + 1) got fl sh data needle (by simp at h1; omega)
+              (by simp [stripIntr] at h2; omega)
+          · simp only [hlt, if_false, Wr.strip, stripIntr]
+            rw [writeAllLoop_succ]
+            simp [hlt]
+        | ok n =>
+          simp only [stripIntr, writeAllLoop_succ, Wr.write, BaseWr.write, scriptWrite]
+          by_cases hlt : needle < data.length
+          · simp only [hlt, if_true]
+            by_cases hz : min n (data.drop needle).length = 0
+            · rw [if_pos hz, if_pos hz]
+              simp [Wr.strip, stripIntr]
+            · rw [if_neg hz, if_neg hz]
+              have : 0 < min n (data.drop needle).length := by omega
+              exact ih f1 f2 _ fl sh data _ (by simp at h1; omega) (by simp [stripIntr] at h2; omega)
+          · simp [hlt, Wr.strip, stripIntr]
+        | err k =>
+          simp only [stripIntr, writeAllLoop_succ, Wr.write, BaseWr.write, scriptWrite]
+          by_cases hlt : needle < data.length <;> simp [hlt, Wr.strip, stripIntr]
+        | eof =>
+          simp only [stripIntr, writeAllLoop_succ, Wr.write, BaseWr.write, scriptWrite]
+          by_cases hlt : needle < data.length <;> simp [hlt, Wr.strip, stripIntr]
+
 end Compio.Io
